@@ -227,3 +227,117 @@ func LoadContracts(roots ...string) (*Contracts, error) {
 	}
 	return C, nil
 }
+
+// VerifyGlobalInit proves the declared invariants of a package-level variable
+// against the slice of the package initialiser that computes its value.
+func VerifyGlobalInit(P *Program, C *Contracts, gi GlobalInv) (obs []*Obligation, errs string) {
+	var pkg *ssa.Package
+	for _, p := range P.prog.AllPackages() {
+		if p.Pkg.Path() == gi.Pkg {
+			pkg = p
+		}
+	}
+	if pkg == nil {
+		return nil, "package not loaded: " + gi.Pkg
+	}
+	g, ok := pkg.Members[gi.Name].(*ssa.Global)
+	if !ok {
+		return nil, "no such global: " + gi.Name
+	}
+	init := pkg.Func("init")
+	e := &Engine{ctx: NewCtx(), prog: P.prog, contracts: C, heapSorts: map[string]string{}, topFn: init, topName: "global." + gi.Name,
+		ordinals: map[string]int{}, notes: map[string]int{}, cfg: &Config{InlineMax: 0}, tags: gi.Tags}
+	e.ctx.pre = append(e.ctx.pre, prelude)
+	defer func() {
+		if r := recover(); r != nil {
+			if u, ok := r.(unsupported); ok {
+				errs = u.msg
+				return
+			}
+			panic(r)
+		}
+	}()
+	// backward slice from the stores to g
+	need := map[ssa.Instruction]bool{}
+	allocs := map[*ssa.Alloc]bool{}
+	var work []ssa.Value
+	var theStore *ssa.Store
+	for _, b := range init.Blocks {
+		for _, ins := range b.Instrs {
+			if s, ok := ins.(*ssa.Store); ok && s.Addr == ssa.Value(g) {
+				if theStore != nil {
+					return nil, "global assigned more than once in init"
+				}
+				theStore = s
+				need[s] = true
+				work = append(work, s.Val)
+			}
+		}
+	}
+	if theStore == nil {
+		return nil, "global is not assigned in init"
+	}
+	if e.mutableGlobal(g) {
+		return nil, "global is assigned outside of init"
+	}
+	for len(work) > 0 {
+		v := work[len(work)-1]
+		work = work[:len(work)-1]
+		ins, ok := v.(ssa.Instruction)
+		if !ok || need[ins] {
+			continue
+		}
+		need[ins] = true
+		switch x := ins.(type) {
+		case *ssa.Alloc:
+			allocs[x] = true
+			for _, r := range *x.Referrers() {
+				switch rr := r.(type) {
+				case *ssa.Store:
+					if rr.Addr == ssa.Value(x) {
+						need[rr] = true
+						work = append(work, rr.Val)
+					}
+				case *ssa.IndexAddr, *ssa.FieldAddr:
+					work = append(work, rr.(ssa.Value))
+					for _, r2 := range *rr.(ssa.Value).Referrers() {
+						if st, ok := r2.(*ssa.Store); ok && st.Addr == rr.(ssa.Value) {
+							need[st] = true
+							work = append(work, st.Val)
+						}
+					}
+				case *ssa.UnOp, *ssa.Slice:
+				default:
+					return nil, fmt.Sprintf("initialiser escapes through %T", r)
+				}
+			}
+		case *ssa.Call:
+			return nil, "initialiser depends on a call"
+		}
+		for _, op := range ins.Operands(nil) {
+			if *op != nil {
+				work = append(work, *op)
+			}
+		}
+	}
+	st := &State{pc: "true", cells: map[*Cell]Val{}, heap: map[string]string{}, globals: map[*ssa.Global]Val{}, epoch: "0"}
+	st.top = e.ctx.Declare("top0", "Int")
+	e.ctx.Assume(sx("<=", "0", st.top))
+	fr := e.newFrame(init, nil, nil, st, nil)
+	blk := theStore.Block()
+	for ins := range need {
+		if ins.Block() != blk {
+			return nil, "initialiser spans several blocks"
+		}
+	}
+	for _, ins := range blk.Instrs {
+		if need[ins] {
+			e.execInstr(fr, st, ins)
+		}
+	}
+	env := &Env{e: e, st: st, bound: map[string]Val{}, names: map[string]Val{}, pkg: pkg.Pkg, curFunc: "global " + gi.Name}
+	e.contracts = &Contracts{Funcs: C.Funcs, Specs: C.Specs, Ghosts: C.Ghosts, Consts: C.Consts} // no circular use of the invariant
+	goal := e.evalBool(gi.Expr, env)
+	e.oblige(st, "init", goal, gi.Pos, "initialiser establishes: "+gi.Src, gi.Tags)
+	return e.obs, ""
+}
